@@ -4,7 +4,6 @@ package sorter
 
 import (
 	"bytes"
-	"encoding/csv"
 	"io"
 
 	"github.com/wrgl/wrgl/pkg/zzverif"
@@ -73,16 +72,32 @@ func Harness_C02_sortfile() {
 }
 
 // C01 through the CSV entry point: cells of arbitrary bytes (quotes, commas, newlines,
-// non-UTF8) are written by the standard library's csv.Writer (the reference encoder:
-// what a well-formed CSV with such a cell looks like) and read by SortFile; the rows
-// stored must be the cells, byte for byte.
+// non-UTF8) are written the RFC 4180 way (every field quoted, quotes doubled - what a
+// well-formed CSV with such a cell looks like) and read by SortFile; the rows stored
+// must be the cells, byte for byte.
 func Harness_C01_csv_content() {
 	nrows := zzverif.Param("rows", 2)
 	cellLen := zzverif.Param("cellLen", 1)
 	in := make([][]string, nrows)
+	// RFC 4180 writer of the harness: every field quoted, quotes doubled, records end in LF
 	buf := bytes.NewBuffer(nil)
-	w := csv.NewWriter(buf)
-	w.Write([]string{"a", "b"})
+	writeRec := func(rec []string) {
+		for k, f := range rec {
+			if k > 0 {
+				buf.WriteByte(',')
+			}
+			buf.WriteByte('"')
+			for x := 0; x < len(f); x++ {
+				if f[x] == '"' {
+					buf.WriteByte('"')
+				}
+				buf.WriteByte(f[x])
+			}
+			buf.WriteByte('"')
+		}
+		buf.WriteByte('\n')
+	}
+	writeRec([]string{"a", "b"})
 	cr := false
 	for i := 0; i < nrows; i++ {
 		k := string([]byte{byte('a' + i)}) // concrete distinct keys
@@ -91,9 +106,8 @@ func Harness_C01_csv_content() {
 			cr = zzverif.Or(cr, zzverif.And(v[x] == '\r', v[x+1] == '\n'))
 		}
 		in[i] = []string{k, v}
-		w.Write(in[i])
+		writeRec(in[i])
 	}
-	w.Flush()
 	zzverif.Region("cell-containing-CR-LF", cr)
 	s, err := NewSorter(WithRunSize(1 << 30))
 	if err != nil {
